@@ -143,10 +143,13 @@ TypedArgBase* ArgumentContainer::findArg( const ArgumentKey& key) const
 
 
    TypedArgBase*  part_match = nullptr;
+   bool           multiple_part_matches = false;
 
 
    for (auto const& argi : mArguments)
    {
+      // an exact match always wins, also if other arguments that were defined
+      // before start with the same characters
       if (argi == key)
          return argi.data().get();
 
@@ -156,11 +159,14 @@ TypedArgBase* ArgumentContainer::findArg( const ArgumentKey& key) const
          if (part_match == nullptr)
             part_match = argi.data().get();
          else
-            throw runtime_error( "Long argument abbreviation '"
-                                 + format::toString( key)
-                                 + "' matches more than one argument");
+            multiple_part_matches = true;
       } // end if
    } // end for
+
+   if (multiple_part_matches)
+      throw runtime_error( "Long argument abbreviation '"
+                           + format::toString( key)
+                           + "' matches more than one argument");
 
    return part_match;
 } // ArgumentContainer::findArg
